@@ -156,6 +156,18 @@ def orderLine : Option (Nat × Nat × OrderOutcome) → String
 
 def evLines (ev : Events) : List String := [orderLine ev.order, balLine ev.balance, tradeLine ev.trade]
 
+def seen2s : Seen → String
+  | .response o => outcome2s o
+  | .timeout => "timeout"
+
+/-- the order snapshot as the engine sees it (`timeout` = the manager's own `OpenFailed(Timeout)`) -/
+def seenOrderLine : Option (Nat × Nat × Seen) → String
+  | none => "order none"
+  | some (x, i, o) => "order " ++ n2s x ++ " " ++ n2s i ++ " " ++ seen2s o
+
+def seenLines (ev : SeenEvents) : List String :=
+  [seenOrderLine ev.order, balLine ev.balance, tradeLine ev.trade]
+
 /-- `snap<exchange index> <asset index>:<amount> …` (one key per exchange, so that the spec can
 speak about one exchange and stay silent about another) -/
 def snapLine (s : Nat × List (Nat × Rat)) : String :=
@@ -241,12 +253,12 @@ def buildLines (ii : Indexed) (adds : List Add) : Option Exec × List String :=
       (some e, ["r ok", txmapLine e.txmap, "handles " ++ n2s m ++ " " ++ n2s n ++ " " ++ n2s k] ++
         (isort (·.1) snaps).map snapLine)
 
-def sendLines : SendResult → List String
+def sendLines : SeenResult → List String
   | .noTx => ["r err"]
   | .closed => ["r closed"]
   | .managerPanic => ["r mpanic"]
-  | .live c n ev => ["r live " ++ n2s c ++ " " ++ n2s n] ++ evLines ev
-  | .mock _ _ ev => ["r mock"] ++ evLines ev
+  | .live c n ev => ["r live " ++ n2s c ++ " " ++ n2s n] ++ seenLines ev
+  | .mock _ _ ev => ["r mock"] ++ seenLines ev
 
 def model : Drv St where
   init := {}
@@ -283,7 +295,8 @@ def model : Drv St where
         match s.exec with
         | none => (s, ["nobuild"])
         | some e =>
-          let (e', res) := sendOpen e o
+          -- `sendOpen` + the manager's 1 s request timeout on mock links (builder.rs:97)
+          let (e', res) := sendOpenSeen e o
           ({ s with exec := some e' }, sendLines res)
     | op :: _ =>
       if isTamper op then
@@ -301,8 +314,12 @@ def model : Drv St where
 
 Speaks only about a collection as the builder made it (`pristine`), and for an exchange only while
 everything the documented intent presupposes holds: exchange names of its instruments and assets
-are unambiguous, every asset of the exchange has a configured balance, no request for an instrument
-of another exchange has been sent to it. -/
+are unambiguous, every asset of the exchange has a configured balance (and no balance is configured
+for a name the exchange has no asset for), no request for an instrument of another exchange has been
+sent to it. These gates are EXACTLY the hypotheses of `Props.C04M.built_system_refines_view`
+(`ViewHypW` — C11's `WFAssets` is not among them since theorem review A — and `managerAlive`); the
+per-exchange history `hist` is `specHistory` over `routedTo`, the requests of the whole history that
+the built system routes to that exchange. -/
 
 def exchangeIds (defs : List Def) : List Nat := specExchanges defs
 
@@ -406,14 +423,19 @@ def spec : Drv St where
                 | none =>
                   -- no fill prescribed: nothing changes, and the order snapshot says why
                   -- (`Props.C04M.reject_outcome_refines_view`)
+                  -- (`Props.C04M.built_system_refines_view`; `specSeen`: the manager's request
+                  -- timeout hides the outcome of an exchange configured with latency >= 1 s)
                   (s, [first, "bal none", "trade none",
-                       orderLine (some (o.exchange, o.instrument, specOutcome ii c acc o))])
+                       seenOrderLine (some (o.exchange, o.instrument, specSeen c (specOutcome ii c acc o)))])
                 | some (a, b, tr) =>
                   ({ s with hist := s.hist.map fun h =>
                       if h.1 == x.value then (h.1, h.2.1, specNext ii c h.2.2 o) else h },
                    [first, balLine (some (a, b, b)),
                     tradeLine (some (tr.instr, tr.side, tr.price, tr.qty, tr.fees)),
-                    orderLine (some (o.exchange, tr.instr, if o.qty - tr.qty = 0 then .filled else .active))])
+                    -- the fill and the balance are prescribed also when the engine is told `timeout`:
+                    -- the exchange HAS executed the order (`Props.C04M.timeout_hides_an_executed_order`)
+                    seenOrderLine (some (o.exchange, tr.instr,
+                      specSeen c (if o.qty - tr.qty = 0 then .filled else .active)))])
       | none, _, _ => (s, ["bad-op"])
       | _, _, _ => (s, [])
     | op :: _ =>
